@@ -53,6 +53,7 @@ class World:
         self.sel_open = False
         self.pending_recv = None
         self.recording = True
+        self.kept = []
         self.zpeer = None   # zlib decompressor honouring the negotiated context (for Z: canonicalisation)
         self.deflate_cfg = None
 
@@ -120,6 +121,11 @@ class FakeSelector:
 
     def wait(self, max_bytes, timeout=0.0):
         w = self.w
+        # the receive buffer's content is dead between reads: poison it so that any event
+        # payload still aliasing it would visibly change (C01: payloads never change after yield)
+        sess = getattr(w, 'session', None)
+        if sess is not None:
+            sess._buffer[:] = b'\xaa' * len(sess._buffer)
         if not w.env:
             raise ScriptEnd()
         step = w.env.pop(0)
@@ -149,6 +155,7 @@ def make_session_class(world):
             if c == 'otherfail':
                 raise RuntimeError('simulated connect failure')
             sock = FakeSocket(world)
+            world.session = self
             world.sock_open = True
             world.fsock = sock
             return sock, ('http://proxy.example:3128' if c == 'okproxy' else None)
@@ -465,7 +472,9 @@ def run_real(sc):
 
         def handle(ev):
             nonlocal idx
-            world.log(show_event(ev))
+            tok = show_event(ev)
+            world.log(tok)
+            world.kept.append((tok, ev))
             if ev.name == 'ready':
                 world.deflate_cfg = ws.state.compression
             acts = sc.reactions.get(idx, [])
@@ -495,12 +504,16 @@ def run_real(sc):
         if mech == 'close':
             gen.close()
         gen = None
-        gc.collect()
+        if mech is not None:
+            gc.collect()      # finalise a dropped generator even if it sits in a reference cycle
     except ScriptEnd:
         world.log('INCOMPLETE')
         world.recording = False
     finally:
         _session.time, _events.time, _frame.make_masking_key, _websocket.os.urandom = saved
+    for i, (tok, ev) in enumerate(world.kept):
+        if show_event(ev) != tok:
+            world.trace.append('MUTATED:%d' % i)
     end = 'END:sock=%d:sel=%d:closing=%d:closed=%d' % (
         1 if world.sock_open else 0, 1 if world.sel_open else 0,
         1 if ws.state.closing else 0, 1 if ws.state.closed else 0)
